@@ -69,12 +69,23 @@ def find_std():
 
 
 def locked_version(crate):
+    """version of `crate` in $VERIF_REPO/Cargo.lock (default /repo; a scratch worktree has no lock file of its
+    own: /repo's is used then); the harness' own lock file — the one that decides what the harness binary is
+    linked against — must name the same version"""
+    def ver(lockfile):
+        m = re.search(r'\[\[package\]\]\s*name = "%s"\s*version = "([^"]+)"' % re.escape(crate), open(lockfile).read())
+        return m.group(1) if m else None
     repo = os.environ.get("VERIF_REPO", "/repo").rstrip("/")
-    lock = open(os.path.join(repo, "Cargo.lock")).read()
-    m = re.search(r'\[\[package\]\]\s*name = "%s"\s*version = "([^"]+)"' % re.escape(crate), lock)
-    if not m:
-        die(f"{crate} not found in {repo}/Cargo.lock")
-    return m.group(1)
+    lock = os.path.join(repo, "Cargo.lock")
+    if not os.path.exists(lock):
+        lock = "/repo/Cargo.lock"
+    v = ver(lock)
+    if v is None:
+        die(f"{crate} not found in {lock}")
+    hlock = os.path.join(ROOT, "harness", "Cargo.lock")
+    if os.path.exists(hlock) and ver(hlock) not in (None, v):
+        die(f"{crate}: {lock} locks {v}, harness/Cargo.lock locks {ver(hlock)}")
+    return v
 
 
 def find_crate(crate, version):
